@@ -357,7 +357,7 @@ CONN_PROJ = {
     "C01": {"family", "popped", "res", "whole"},
     "C02": {"res", "popped", "whole"},
     "C03": {"nopanic", "recvs", "calls", "window", "harness"},
-    "C04": {"res", "popped", "whole"},
+    "C04": {"res", "popped", "whole", "pending"},
     "C06": {"wres", "calls", "sent", "pending", "offered"},
     # C11 is judged relationally (c11rel: after-error connection vs a new connection on the same input)
     "C11": {"c11rel", "leak"},
